@@ -62,6 +62,57 @@ def _maf_sibling(spec, r):
     return sib
 
 
+MAX_VALS = [0.5, 1.0, 2.0, 3.0, 5.0, 8.0, 8.0, 12.0, 20.0]
+
+
+def _vary_max_val(items, r, p=0.5):
+    """The templates below fix a leaky-tanh's switch point; it is a free positive knob of the API
+    (at >= 8 float32 tanh saturates to exactly 1), so half of the draws replace it."""
+    out = []
+    for it in items:
+        it = list(it)
+        if it[0] in ("LeakyTanh", "InvLeakyTanh") and r.random() < p:
+            it[1] = r.choice(MAX_VALS)
+        out.append(it)
+    return out
+
+
+def sibling_config(spec, r):
+    """The same model with a different PYTHON-valued configuration (same array shapes): spline
+    interval / min_derivative, leaky-tanh switch point, planar activation, triangle side. Used as
+    process history: built and evaluated in the same process before the model under test."""
+    s = copy.deepcopy(spec)
+    changed = False
+    if "interval" in s or s.get("transformer") == "spline" or s["kind"] in ("vspline", "scan_vspline"):
+        cur = s.get("interval", [-4.0, 4.0])
+        opts = [iv for iv in ([-4.0, 4.0], [-1.0, 1.0], [-2.0, 2.0], [0.5, 2.0], [-3.0, -0.5], [-8.0, 8.0]) if iv != list(cur)]
+        s["interval"] = r.choice(opts)
+        changed = True
+    if s["kind"] == "scan_vspline":
+        s["min_derivative"] = 1e-2 if s.get("min_derivative", 1e-3) == 1e-3 else 1e-3
+        changed = True
+    for part in ("items", "inner", "first", "last"):
+        if part in s:
+            new = []
+            for it in s[part]:
+                it = list(it)
+                if it[0] in ("LeakyTanh", "InvLeakyTanh"):
+                    it[1] = r.choice([v for v in MAX_VALS if v != it[1]])
+                    changed = True
+                if it[0] in ("VSpline", "InvVSpline"):
+                    it[2] = r.choice([iv for iv in ([-1.0, 1.0], [-2.0, 2.0], [0.5, 2.0], [-4.0, 4.0]) if iv != list(it[2])])
+                    changed = True
+                new.append(it)
+            s[part] = new
+    if s["kind"] == "planar" or s.get("flow") == "planar":
+        s["negative_slope"] = 0.3 if s.get("negative_slope") in (None, 0.1, 0.5) and s.get("negative_slope") != 0.3 else 0.1
+        changed = True
+    if s["kind"] == "triaffine":
+        s["lower"] = not s.get("lower", True)
+        changed = True
+    return s if changed else None
+
+
 def _direct_spec(r, kinds):
     kind = r.choice(list(kinds))
     dim = r.choice([1, 2, 2, 3])
@@ -78,6 +129,8 @@ def _direct_spec(r, kinds):
         if kind == "scan_vspline":
             spec["layers"] = r.choice([1, 2])
             spec["dim"] = r.choice([1, 2])
+            # the spline sits behind a leaky tanh (image of the bulk: (-1, 1))
+            spec["interval"] = r.choice([[-1.0, 1.0], [-1.0, 1.0], [-2.0, 2.0], [-0.5, 0.5], [-1.5, 1.0]])
     if kind == "planar":
         spec["cond_dim"] = r.choice([None, None, 2])
         spec["negative_slope"] = r.choice([None, 0.1, 0.5])
@@ -87,7 +140,7 @@ def _direct_spec(r, kinds):
     if kind == "chain":
         # chains whose first-evaluated layer compares the data against a boundary get extra weight
         boundary = [c for c in CHAINS if c[0][0] in ("LeakyTanh", "InvLeakyTanh", "Tanh", "VSpline", "InvVSpline") or len(c) == 3]
-        spec["items"] = r.choice(CHAINS + boundary + boundary)
+        spec["items"] = _vary_max_val(r.choice(CHAINS + boundary + boundary), r)
     if kind == "nested_chain":
         spec["first"] = r.choice([[["Affine"]], [["Scale"]], []])
         spec["inner"] = r.choice([[["Affine"], ["Tanh"]], [["TriAffine"], ["Affine"]], [["LeakyTanh", 3.0], ["Scale"]], [["Affine"], ["Flip"], ["Affine"]]])
@@ -275,10 +328,10 @@ def _bucket(prop, tier, seed, idx):
             spec = _flow_spec(r, flows=("maf", "coupling", "planar"), transformers=("spline", "spline", "affine"))
             if _planar_like(spec):
                 spec["invert"] = True
-        elif u < 0.5:
+        elif u < 0.55:
             # a leaky tanh (or tanh) met by the data right before an exactly-identity parameterised layer:
             # the only arrangement in which a data coordinate can sit exactly on its +-1 / switch-point boundaries
-            spec = {"kind": "chain", "dim": r.choice([1, 2, 2]), "items": r.choice(LT_CHAINS)}
+            spec = {"kind": "chain", "dim": r.choice([1, 2, 2]), "items": _vary_max_val(r.choice(LT_CHAINS), r, p=0.7)}
         elif u < 0.9:
             spec = _direct_spec(r, ["vspline", "vspline", "vspline", "chain", "chain", "planar", "affine", "scan_vspline"])
         else:
@@ -362,6 +415,12 @@ def world_for(prop, tier, seed, idx):
             from sim import history_ops
 
             w["history"] = {"pre": history_ops.draw_history(r), "post": history_ops.draw_history(r), "panel": list(history_ops.PANEL_NAMES)}
+    if prop in ("C18", "C11", "C12", "C09") and r.random() < (0.4 if prop == "C18" else 0.15):
+        # process history: a sibling configuration (same array shapes, different python-valued settings)
+        # is built AND evaluated in the same process before the model under test
+        sib = sibling_config(b["model"], r)
+        if sib is not None:
+            w["prelude_use"] = [_fill_values(sib, r)] if b["model"]["kind"] != "named" else []
     if prop == "C18":
         w["faults"] = []
         if r.random() < 0.35:  # perturbed parameters: one early teleport of modest size
@@ -479,6 +538,10 @@ def shrink_candidates(w):
     if w.get("prelude_train"):
         c = copy.deepcopy(w)
         del c["prelude_train"]
+        yield c
+    if w.get("prelude_use"):
+        c = copy.deepcopy(w)
+        del c["prelude_use"]
         yield c
     hist = w.get("history")
     if hist:
